@@ -92,18 +92,24 @@ var jsKind int
 var jsMessage, jsLevel string
 var tsBad bool
 
-//verif:model encoding/json.Unmarshal
-func mUnmarshal(data []byte, v any) error {
-	raw := v.(*map[string]interface{})
-	if jsForce0 && lastLineIdx == 0 { // the first of two lines is text
-		return errors.New("json: syntax error")
-	}
+// What a line IS - not JSON / a JSON object with these @-fields / JSON null - is an attribute of the line, fixed before
+// go-plugin sees it; json.Unmarshal then answers accordingly. A line that is a JSON object starts with '{', possibly
+// after white space.
+var jsPlanned bool
+var jsPlanMap map[string]interface{}
+var jsPlanLine string
+
+func planJSON(line string) {
+	jsPlanned, jsPlanLine = true, line
 	jsKind = vChoice(3)
-	switch jsKind {
-	case 0:
-		return errors.New("json: syntax error")
-	case 2:
-		return nil // the JSON value null: no error, map untouched
+	if jsKind != 1 {
+		return
+	}
+	if len(line) > 0 {
+		c0 := line[0]
+		vAssume(c0 == '{' || c0 == ' ' || c0 == '\t' || c0 == '\r' || c0 == '\n')
+	} else {
+		vAssume(false)
 	}
 	m := map[string]interface{}{}
 	jsMsg = jsonField(m, "@message")
@@ -118,7 +124,25 @@ func mUnmarshal(data []byte, v any) error {
 	if vChoice(2) == 1 {
 		m["extra"] = vNondetStr("extraval", "")
 	}
-	*raw = m
+	jsPlanMap = m
+}
+
+//verif:model encoding/json.Unmarshal
+func mUnmarshal(data []byte, v any) error {
+	raw := v.(*map[string]interface{})
+	if jsForce0 && lastLineIdx == 0 { // the first of two lines is text
+		return errors.New("json: syntax error")
+	}
+	if !jsPlanned {
+		planJSON(string(data))
+	}
+	switch jsKind {
+	case 0:
+		return errors.New("json: syntax error")
+	case 2:
+		return nil // the JSON value null: no error, map untouched
+	}
+	*raw = jsPlanMap
 	return nil
 }
 
@@ -181,6 +205,7 @@ func harnessC10() {
 	c.clientWaitGroup.Add(1)
 	c.pipesWaitGroup.Add(1)
 
+	planJSON(L)
 	panicked := true
 	func() {
 		defer func() { recover() }()
@@ -242,6 +267,7 @@ func harnessC10two() {
 	c.clientWaitGroup.Add(1)
 	c.pipesWaitGroup.Add(1)
 	jsForce0 = true // the first line is text (not JSON)
+	planJSON(L1)
 	panicked := true
 	func() {
 		defer func() { recover() }()
